@@ -297,6 +297,9 @@ func c13Hosts() []model.Message {
 		{Header: h, Payloads: []model.Payload{nonce}},
 		{Header: h, Payloads: []model.Payload{ke, nonce, not}},
 		{Header: h, Payloads: []model.Payload{nonce, {Kind: model.KRaw, Raw: &model.Raw{Type: 46, Body: model.Bytes{1, 2, 3, 4, 5, 6, 7, 8}}}}},
+		// vendor ids implementations look for, early in the chain (a "vendor quirk" must not change how what follows is treated)
+		{Header: h, Payloads: []model.Payload{{Kind: model.KVendor, Data: gen.KnownVendorIDs()[0]}, {Kind: model.KVendor, Data: gen.KnownVendorIDs()[2]}, nonce}},
+		{Header: h, Payloads: []model.Payload{{Kind: model.KVendor, Data: gen.KnownVendorIDs()[4]}, {Kind: model.KVendor, Data: gen.KnownVendorIDs()[7]}, nonce}},
 	}
 }
 
@@ -318,7 +321,11 @@ func TestC13(t *testing.T) {
 						if (via == "sk" || via == "outer-sk") && c13HasSK(host) {
 							continue // an Encrypted payload inside an Encrypted payload is not a thing
 						}
-						in := c13In{Host: host, Via: via, Inserts: []c13Insert{{Pos: pos, Raw: model.Raw{Type: uint8(ty), Critical: crit, Body: model.Bytes{0xde, 0xad, byte(ty)}}}}}
+						body := model.Bytes{0xde, 0xad, byte(ty)}
+						if (ty+pos)%3 == 1 {
+							body = model.Bytes{0, 1, 0, 2, 0xaa, 0xbb} // reads as "fragment 1 of 2" to whoever knows RFC 7383
+						}
+						in := c13In{Host: host, Via: via, Inserts: []c13Insert{{Pos: pos, Raw: model.Raw{Type: uint8(ty), Critical: crit, Body: body}}}}
 						if !c13Table.Eval(c, in) && c.Failures() > 3 {
 							goto done
 						}
